@@ -360,6 +360,42 @@ class World(object):
             raise Unsupported('%s.%s exists in the source but is not declared in the contract files (stale class declaration)' % (obj.cls, attr))
         raise RaiseSig(VExc('AttributeError'))
 
+    def check_plain_field(self, ex, obj, attr):
+        """A declared field must be a plain instance attribute of the real class.  If the class (or a base inside the package) now
+        defines it as a property / descriptor, or intercepts attribute access, reads and writes run code the contracts know nothing about."""
+        decl = dsl.CLASSES.get(obj.cls)
+        if decl is None or not decl.real.get(self.twin):
+            return
+        key = (decl.real[self.twin], attr)
+        cache = self.__dict__.setdefault('_plain_cache', {})
+        if key not in cache:
+            modshort, clsname = decl.real[self.twin].split(':')
+            module = self.sources.module(modshort)
+            problem = None
+            seen = set()
+            while clsname and clsname not in seen and problem is None:
+                seen.add(clsname)
+                cls = module.classes.get(clsname)
+                if cls is None:
+                    break
+                for st in cls.body:
+                    if isinstance(st, (ast.FunctionDef, ast.AsyncFunctionDef)):
+                        if st.name == attr:
+                            problem = '%s.%s is a method / property of the real class, not a plain field' % (clsname, attr)
+                        elif st.name in ('__setattr__', '__getattr__', '__getattribute__', '__delattr__'):
+                            problem = '%s defines %s' % (clsname, st.name)
+                    elif isinstance(st, ast.Assign) and any(isinstance(t, ast.Name) and t.id in (attr, '__slots__') for t in st.targets):
+                        if any(isinstance(t, ast.Name) and t.id == attr for t in st.targets):
+                            problem = '%s.%s is bound in the class body (descriptor?)' % (clsname, attr)
+                nxt = None
+                for b in cls.bases:
+                    if isinstance(b, ast.Name) and b.id in module.classes:
+                        nxt = b.id
+                clsname = nxt
+            cache[key] = problem
+        if cache[key]:
+            raise Unsupported('field access is no longer plain: ' + cache[key])
+
     def real_class_assigns(self, ref, attr):
         """Does any method of the real class (or of a base class inside the package) store to self.<attr>, or the class body bind it?"""
         modshort, clsname = ref.split(':')
